@@ -24,6 +24,21 @@ def gen_case(rng):
   regs = G.gen_registry(rng, rng.randint(2, 3))
   scopes = [[], ['a'], ['a', 'b']]
   ops = list(regs) + G.gen_history(rng, regs, rng.randint(8, 25), scopes, w={'special': 0.25})
+  if rng.random() < 0.25:
+    # two macro references, the first one bound, the second not: finalize must still reject
+    withp = [r for r in regs if len([n for n, k in G.param_classes(r).items() if k == 'valid']) >= 1]
+    if withp:
+      ra, rb = rng.choice(withp), rng.choice(withp)
+      pa = rng.choice([n for n, k in G.param_classes(ra).items() if k == 'valid'])
+      pb = rng.choice([n for n, k in G.param_classes(rb).items() if k == 'valid'])
+      extra = [{'op': 'clear', 'constants': False},
+               {'op': 'bind', 'scope': 'm1', 'sel': 'gin.macro', 'arg': 'value', 'val': 3, '_form': 'macro_text', 'block': False},
+               {'op': 'bind', 'scope': '', 'sel': ra['_selector'], 'arg': pa, 'val': {'macro': 'm1'}, '_form': 'text',
+                'block': False, '_reg': ra['obj'], '_pclass': 'valid'},
+               {'op': 'bind', 'scope': 'a', 'sel': rb['_selector'], 'arg': pb, 'val': {'macro': 'm2'}, '_form': 'text',
+                'block': False, '_reg': rb['obj'], '_pclass': 'valid'},
+               {'op': 'finalize'}, {'op': 'locked'}]
+      ops += extra
   ops += [{'op': 'locked'}, {'op': 'config'}, {'op': 'registry'}]
   return {'dom': 'gin', 'ops': ops}
 
